@@ -1089,6 +1089,7 @@ class Context(MetadataContextMixin, object):
                 state = state.next_state()
                 state.query = query.encode()
                 state.metadata["created"] = self.now()
+                cache.store_metadata(state.metadata)
                 self.debug(f"ERROR in '{state.query}'")
                 self._store_state(state)
                 state = self.index_state(state)
